@@ -30,6 +30,8 @@ const (
 	whatFindMissing  = "FindMissingBlobs did not return exactly the requested digests the backend lacks"
 	whatClient       = "client and server back to back do not behave like the backend"
 	whatClientFM     = "FindMissing through client and server does not return exactly the requested digests the backend lacks"
+	whatACClient     = "Action Cache client and server back to back do not behave like the backend"
+	whatReadAfterAbort = "a compressed read of a present object did not return its suffix after earlier streams were torn down"
 	whatAC           = "ActionCache Get/Update do not round-trip the stored message"
 	whatPanic        = "the service panicked"
 )
@@ -129,7 +131,7 @@ func uploadValidity(op *writeOp) (valid int, content []byte, firstOffsetWrong bo
 		// everything else is fine: only the first offset is off
 		return 0, acc, true
 	}
-	if fin == "t" {
+	if fin == "t" || fin == "u" {
 		return 2, acc, false
 	}
 	return 1, acc, false
